@@ -2,11 +2,13 @@
    Only statements, each closed by `exact <lemma>`, with Print Assumptions.
 
    Domain.  `in_product c` says: every component of the configuration c is a value the RELYING PARTY half can be
-   configured with, read from the regenerated Gen/Supports.v (response type, response mode or none, token-endpoint
+   configured with, read from the regenerated Gen/Supports.v (response type: EVERY response type both halves can be
+   configured with - code, id_token, token, code token, code id_token, id_token token, code id_token token - not just
+   the three `_supports` defaults, see C12_response_types_both_sides; response mode or none, token-endpoint
    authentication method, ID Token signing algorithm, ID Token / userinfo key-management algorithm and content
    encryption, userinfo signing algorithm or none, PKCE method or none); access / refresh token format and the
    request transport range over their whole types.  With the tables of the current tree that is
-   3 * 4 * 6 * 2 * 2 * 16 * 61 * 17 * 61 * 4 * 4 (about 4.7 * 10^9) configurations, times the inputs `inp`
+   7 * 4 * 6 * 2 * 2 * 16 * 61 * 17 * 61 * 4 * 4 (about 1.1 * 10^10) configurations, times the inputs `inp`
    (offline_access requested, client-secret length in N, RP configured with all / one response type, provider
    configuration explicit / silent, claims request present).  Nothing is enumerated beyond the per-dimension tables.
 
@@ -59,7 +61,7 @@ Theorem C12_product_partial : forall c i, in_product c -> limits c i = false -> 
 Proof. exact product_partial. Qed.
 Print Assumptions C12_product_partial.
 
-(* the independence / factorisation lemma behind it: the checks of one flow regroup into eight groups, each a
+(* the independence / factorisation lemma behind it: the checks of one flow regroup into nine groups, each a
    function of a few dimensions only *)
 Theorem C12_factor : forall c i,
   forallb snd (checks c i) =
@@ -69,6 +71,7 @@ Theorem C12_factor : forall c i,
     && stub_ok (c_tr c) (c_rt c) (i_offline i)
     && par_claims_ok (c_tr c) (i_claims i)
     && grpC_ok (c_rt c) (c_idt_sig c)
+    && idt_hashes_ok (c_rt c)
     && ui_sig_ok (c_rt c) (c_ui_sig c)
     && ui_enc_ok (c_rt c) (c_ui_enc c) (i_secret_len i).
 Proof. exact checks_factor. Qed.
@@ -165,19 +168,55 @@ Theorem C12_idt_enc_ignored : forall c, idt_encrypted c = false.
 Proof. reflexivity. Qed.
 Print Assumptions C12_idt_enc_ignored.
 
-(* ---- artefacts: for every response type the relying party supports, what it reads from the authorization
-        response is what the provider puts there (create_authn_response probed on a real provider;
-        get_access_and_id_token probed on the real class), and the flow yields an ID Token *)
-Theorem C12_artefacts : forall rt, In rt rp_response_types ->
+(* ---- artefacts: for EVERY response type both halves can be configured with, what the relying party reads from the
+        authorization response is what the provider puts there (create_authn_response probed on a real provider;
+        get_access_and_id_token probed on the real class); the hashes the relying party REQUIRES in an ID Token that
+        arrives together with a code / an access token (AuthorizationResponse.verify probed: c_hash / at_hash) are the
+        ones the provider put into it (ID Token payload of the probe); an ID Token reaches the relying party exactly
+        when the response type names one or the code is redeemed *)
+Theorem C12_artefacts : forall rt, In rt cfg_response_types ->
   artefacts_agree rt = true
   /\ (forall a, In a (artefacts_rp rt) -> In a (artefacts_op rt))
-  /\ yields_id_token rt = true.
+  /\ (forall h, In h (idt_hashes_required rt) -> In h (idt_hashes_provided rt))
+  /\ (yields_id_token rt = true <-> has_word "id_token" rt = true \/ uses_token_endpoint rt = true).
 Proof. exact artefacts. Qed.
 Print Assumptions C12_artefacts.
 
-Theorem C12_response_types_both_sides : forall rt, In rt rp_response_types <-> In rt op_response_types.
+Theorem C12_required_hashes :
+  assoc (PS "code") rp_idt_required_hash = Some (PS "c_hash")
+  /\ assoc (PS "access_token") rp_idt_required_hash = Some (PS "at_hash").
+Proof. exact required_hashes. Qed.
+Print Assumptions C12_required_hashes.
+
+Theorem C12_hashes_by_type : forall rt, In rt cfg_response_types ->
+  (str_in (PS "id_token") (artefacts_op rt) = true -> str_in (PS "code") (artefacts_op rt) = true ->
+     str_in (PS "c_hash") (idt_hashes_provided rt) = true)
+  /\ (str_in (PS "id_token") (artefacts_op rt) = true -> str_in (PS "access_token") (artefacts_op rt) = true ->
+     str_in (PS "at_hash") (idt_hashes_provided rt) = true).
+Proof. exact hashes_by_type. Qed.
+Print Assumptions C12_hashes_by_type.
+
+Theorem C12_response_types_both_sides :
+  cfg_response_types = rp_configurable_response_types
+  /\ (forall rt, In rt rp_configurable_response_types -> In rt op_configurable_response_types)
+  /\ (forall rt, In rt rp_response_types -> In rt cfg_response_types)
+  /\ (forall rt, In rt op_response_types -> In rt cfg_response_types)
+  /\ length cfg_response_types = 7%nat.
 Proof. exact response_types_both_sides. Qed.
 Print Assumptions C12_response_types_both_sides.
+
+Example C12_nonvacuous_all_types :
+  let c rt := mkCfg (PS rt) None (PS "client_secret_basic") false false (PS "RS256") None None None TRequest None in
+  forallb (fun rt => outcome_eqb (flow_outcome (c rt) base_inp) Completed)
+          ["code"; "id_token"; "token"; "code token"; "code id_token"; "id_token token"; "code id_token token"] = true
+  /\ in_product (c "code id_token token") /\ in_product (c "code token").
+Proof. split; [vm_compute; reflexivity|split; in_prod]. Qed.
+
+(* an HMAC ID Token algorithm is harmless where no ID Token is minted *)
+Example C12_hs_without_id_token :
+  let c := mkCfg (PS "code token") None (PS "client_secret_basic") false false (PS "HS256") None None None TPlain None in
+  in_product c /\ flow_outcome c base_inp = Completed.
+Proof. split; [in_prod|vm_compute; reflexivity]. Qed.
 
 (* ---- views.  In the composed model ONE record is created at the authorization endpoint from the request and
         from two environment functions - sub_of (user, client): the subject identifier (its consistency across
@@ -186,45 +225,51 @@ Print Assumptions C12_response_types_both_sides.
         C08/C09).  Every observation point (provider session, token response, JWT access token, introspection,
         userinfo, ID Token, relying party) shows a projection of that record, so all views agree, for ALL users,
         clients, scopes, nonces, times and lifetimes.  Both clocks read `now`; see C12_rp_expiry_skew otherwise. *)
-Theorem C12_views_model : forall sub_of filter_scopes user client req_scope nonce now at_life idt_life at_jwt,
+Theorem C12_views_model : forall sub_of filter_scopes user client req_scope nonce now at_life idt_life asrc at_jwt,
   let s := authorize sub_of filter_scopes user client req_scope nonce now at_life idt_life in
-  all_agree (all_views true at_jwt s now now) = true
-  /\ (forall v, In v (all_views true at_jwt s now now) -> projects s v)
-  /\ all_agree (map forget_idt_exp (all_views false at_jwt s now now)) = true
-  /\ (forall has_token,
-       v_sub (view_rp has_token s now now) = Some (sub_of user client)
-       /\ v_scope (view_rp has_token s now now) = Some (filter_scopes client req_scope)
-       /\ v_nonce (view_rp has_token s now now) = nonce
-       /\ v_client (view_rp has_token s now now) = Some client).
+  (forall isrc, isrc <> SrcAuthz ->
+     all_agree (all_views asrc isrc at_jwt s now now) = true
+     /\ (forall v, In v (all_views asrc isrc at_jwt s now now) -> projects s v))
+  /\ all_agree (map forget_idt_exp (all_views asrc SrcAuthz at_jwt s now now)) = true
+  /\ (forall isrc,
+       v_sub (view_rp asrc isrc s now now) = Some (sub_of user client)
+       /\ v_scope (view_rp asrc isrc s now now) = Some (filter_scopes client req_scope)
+       /\ v_nonce (view_rp asrc isrc s now now) = nonce
+       /\ v_client (view_rp asrc isrc s now now) = Some client).
 Proof. exact views_model. Qed.
 Print Assumptions C12_views_model.
 
-(* flows through the token endpoint: all views agree, for every session record and time *)
-Theorem C12_views_agree : forall at_jwt s now, all_agree (all_views true at_jwt s now now) = true.
+(* asrc / isrc: where the relying party's access token / ID Token come from (none, authorization response, token
+   response) - rp_artefact_sources gives them per response type.  Every flow whose ID Token (if any) comes from the
+   token endpoint: all views agree, for every session record and time *)
+Theorem C12_views_agree : forall asrc isrc at_jwt s now, isrc <> SrcAuthz ->
+  all_agree (all_views asrc isrc at_jwt s now now) = true.
 Proof. exact views_agree. Qed.
 Print Assumptions C12_views_agree.
 
-(* Full statement for flows WITHOUT the token endpoint (response type id_token) is false of the faithful model:
-     Theorem C12_views_agree_implicit_full : forall at_jwt s now, all_agree (all_views false at_jwt s now now) = true.
-   the session database records expires_at = 0 for an ID Token minted at the authorization endpoint. *)
-Theorem C12_views_agree_implicit_partial : forall at_jwt s now,
-  all_agree (map forget_idt_exp (all_views false at_jwt s now now)) = true
-  /\ all_agree [view_id_token s; view_rp false s now now] = true.
+(* Full statement for flows whose ID Token is minted at the AUTHORIZATION endpoint (id_token, id_token token,
+   code id_token token) is false of the faithful model:
+     Theorem C12_views_agree_implicit_full : forall asrc at_jwt s now, all_agree (all_views asrc SrcAuthz at_jwt s now now) = true.
+   the session database records expires_at = 0 for such an ID Token. *)
+Theorem C12_views_agree_implicit_partial : forall asrc at_jwt s now,
+  all_agree (map forget_idt_exp (all_views asrc SrcAuthz at_jwt s now now)) = true
+  /\ all_agree [view_id_token s; view_rp asrc SrcAuthz s now now] = true.
 Proof. exact views_agree_implicit. Qed.
 Print Assumptions C12_views_agree_implicit_partial.
 
-Theorem C12_views_agree_implicit_refuted : exists s, all_agree (all_views false false s 0 0) = false.
+Theorem C12_views_agree_implicit_refuted : exists s, all_agree (all_views SrcNone SrcAuthz false s 0 0) = false.
 Proof. exact views_agree_implicit_refuted. Qed.
 Print Assumptions C12_views_agree_implicit_refuted.
 
 (* the relying party computes __expires_at from ITS clock: it is off by exactly the clock difference *)
-Theorem C12_rp_expiry_skew : forall s now_op now_rp,
-  v_at_exp (view_rp true s now_op now_rp) = Some (s_at_exp s + (now_rp - now_op))%Z.
+Theorem C12_rp_expiry_skew : forall asrc isrc s now_op now_rp, asrc <> SrcNone ->
+  v_at_exp (view_rp asrc isrc s now_op now_rp) = Some (s_at_exp s + (now_rp - now_op))%Z.
 Proof. exact rp_expiry_skew. Qed.
 Print Assumptions C12_rp_expiry_skew.
 
 Example C12_views_nonvacuous :
   let s := mkSession (PS "c12-client") (PS "sub-1") [PS "openid"; PS "profile"] (Some (PS "n-1")) 1700000600 1700000300 in
-  all_agree (all_views true true s 1700000000 1700000000) = true
-  /\ all_agree (all_views true true s 1700000000 1700000007) = false.
-Proof. split; vm_compute; reflexivity. Qed.
+  all_agree (all_views SrcToken SrcToken true s 1700000000 1700000000) = true
+  /\ all_agree (all_views SrcAuthz SrcNone true s 1700000000 1700000000) = true
+  /\ all_agree (all_views SrcToken SrcToken true s 1700000000 1700000007) = false.
+Proof. repeat split; vm_compute; reflexivity. Qed.
